@@ -14,12 +14,13 @@ EXTENDS MddFun
 VARIABLES
     lib,        \* TRUE while the library is initialised
     doms,       \* d |-> [sizes, alive]
-    fors,       \* f |-> [d, rel, rng, lab, rule, alive, fid]
+    fors,       \* f |-> [d, rel, rng, lab, rule, alive, fid, l2v]
     edges,      \* slot |-> [f, fn]   (f = NoForest: detached, fn = <<>>)
     nextFid,    \* next forest identifier within this initialisation
+    files,      \* exchange files: b |-> sequence of [kind, fn] records written
     err         \* outcome of the last call: "ok" or an error code
 
-vars == <<lib, doms, fors, edges, nextFid, err>>
+vars == <<lib, doms, fors, edges, nextFid, files, err>>
 
 NoForest == -1
 DetachedEdge == [f |-> NoForest, fn |-> <<>>]
@@ -41,7 +42,10 @@ Transparent(F) == IF F.lab \in {"EP", "IX"} THEN Inf ELSE 0
 \* the value "one" of a forest's range
 UnitOf(F) == IF F.rng = "R" THEN RealOne ELSE 1
 
-Sizes(F)  == doms[F.d].sizes
+\* sizes by level: the domain lists sizes by variable; a forest may have
+\* reordered its variables (l2v[k] = variable at level k)
+Sizes(F)  == [k \in 1..Len(doms[F.d].sizes) |-> doms[F.d].sizes[F.l2v[k]]]
+FSizes(f) == Sizes(fors[f])
 FDS(F)    == DS(Sizes(F), F.rel)
 NPts(F)   == NPoints(FDS(F))
 
@@ -59,32 +63,33 @@ Init ==
     /\ fors = << >>
     /\ edges = << >>
     /\ nextFid = 1
+    /\ files = << >>
     /\ err = "ok"
 
 Initialize ==
     IF lib
-    THEN err' = "ALREADY_INITIALIZED" /\ UNCHANGED <<lib, doms, fors, edges, nextFid>>
+    THEN err' = "ALREADY_INITIALIZED" /\ UNCHANGED <<lib, doms, fors, edges, nextFid, files>>
     ELSE /\ lib' = TRUE
          /\ nextFid' = 1
          /\ err' = "ok"
-         /\ UNCHANGED <<doms, fors, edges>>
+         /\ UNCHANGED <<doms, fors, edges, files>>
 
 \* every forest and domain dies, every edge becomes detached
 Cleanup ==
     IF ~lib
-    THEN err' = "UNINITIALIZED" /\ UNCHANGED <<lib, doms, fors, edges, nextFid>>
+    THEN err' = "UNINITIALIZED" /\ UNCHANGED <<lib, doms, fors, edges, nextFid, files>>
     ELSE /\ lib' = FALSE
          /\ doms' = [d \in DOMAIN doms |-> [doms[d] EXCEPT !.alive = FALSE]]
          /\ fors' = [f \in DOMAIN fors |-> [fors[f] EXCEPT !.alive = FALSE]]
          /\ edges' = [s \in DOMAIN edges |-> DetachedEdge]
          /\ err' = "ok"
-         /\ UNCHANGED nextFid
+         /\ UNCHANGED <<nextFid, files>>
 
 CreateDomain(d, sizes) ==
     /\ lib
     /\ doms' = (d :> [sizes |-> sizes, alive |-> TRUE]) @@ doms
     /\ err' = "ok"
-    /\ UNCHANGED <<lib, fors, edges, nextFid>>
+    /\ UNCHANGED <<lib, fors, edges, nextFid, files>>
 
 \* destroying a domain destroys its forests; their edges become detached;
 \* forests of other domains are untouched
@@ -97,18 +102,19 @@ DestroyDomain(d) ==
                   IF edges[s].f # NoForest /\ fors[edges[s].f].d = d
                   THEN DetachedEdge ELSE edges[s]]
     /\ err' = "ok"
-    /\ UNCHANGED <<lib, nextFid>>
+    /\ UNCHANGED <<lib, nextFid, files>>
 
 CreateForest(f, d, rel, rng, lab, rule) ==
     /\ lib /\ d \in DOMAIN doms /\ doms[d].alive
     /\ IF ValidKind(rel, rng, lab)
        THEN /\ fors' = (f :> [d |-> d, rel |-> rel, rng |-> rng, lab |-> lab,
-                              rule |-> rule, alive |-> TRUE, fid |-> nextFid]) @@ fors
+                              rule |-> rule, alive |-> TRUE, fid |-> nextFid,
+                              l2v |-> [k \in 1..Len(doms[d].sizes) |-> k]]) @@ fors
             /\ nextFid' = nextFid + 1
             /\ err' = "ok"
        ELSE /\ err' = "TYPE_MISMATCH"
-            /\ UNCHANGED <<fors, nextFid>>
-    /\ UNCHANGED <<lib, doms, edges>>
+            /\ UNCHANGED <<fors, nextFid, files>>
+    /\ UNCHANGED <<lib, doms, edges, files>>
 
 DestroyForest(f) ==
     /\ lib /\ LiveForest(f)
@@ -116,7 +122,7 @@ DestroyForest(f) ==
     /\ edges' = [s \in DOMAIN edges |->
                   IF edges[s].f = f THEN DetachedEdge ELSE edges[s]]
     /\ err' = "ok"
-    /\ UNCHANGED <<lib, doms, nextFid>>
+    /\ UNCHANGED <<lib, doms, nextFid, files>>
 
 -----------------------------------------------------------------------------
 (* Edge handles *)
@@ -128,40 +134,43 @@ NewEdge(s, f) ==
     /\ f = NoForest \/ LiveForest(f)
     /\ edges' = (s :> FreshEdge(f)) @@ edges
     /\ err' = "ok"
-    /\ UNCHANGED <<lib, doms, fors, nextFid>>
+    /\ UNCHANGED <<lib, doms, fors, nextFid, files>>
 
 CopyEdge(s, src) ==
     /\ src \in DOMAIN edges
     /\ edges' = (s :> edges[src]) @@ edges
     /\ err' = "ok"
-    /\ UNCHANGED <<lib, doms, fors, nextFid>>
+    /\ UNCHANGED <<lib, doms, fors, nextFid, files>>
 
 AssignEdge(s, src) ==
     /\ s \in DOMAIN edges /\ src \in DOMAIN edges
     /\ edges' = [edges EXCEPT ![s] = edges[src]]
     /\ err' = "ok"
-    /\ UNCHANGED <<lib, doms, fors, nextFid>>
+    /\ UNCHANGED <<lib, doms, fors, nextFid, files>>
 
 DeleteEdge(s) ==
     /\ s \in DOMAIN edges
     /\ edges' = [t \in DOMAIN edges \ {s} |-> edges[t]]
     /\ err' = "ok"
-    /\ UNCHANGED <<lib, doms, fors, nextFid>>
+    /\ UNCHANGED <<lib, doms, fors, nextFid, files>>
 
 AttachEdge(s, f) ==
     /\ s \in DOMAIN edges
     /\ f = NoForest \/ LiveForest(f)
     /\ edges' = [edges EXCEPT ![s] = FreshEdge(f)]
     /\ err' = "ok"
-    /\ UNCHANGED <<lib, doms, fors, nextFid>>
+    /\ UNCHANGED <<lib, doms, fors, nextFid, files>>
 
 -----------------------------------------------------------------------------
-(* Outcomes.  An outcome is [ok, err, fn]: either the function the call    *)
-(* must produce, or the error it must raise ("ANY": the documentation      *)
-(* fixes no code, only that a MEDDLY::error is raised).                    *)
+(* Outcomes.  An outcome is [ok, errs, fn]: either the function the call   *)
+(* must produce, or the set of error codes it may raise ("ANY" in the set: *)
+(* the documentation fixes no code, only that a MEDDLY::error is raised).  *)
+(* err = "unmodelled": the specification does not constrain this call.     *)
 
-Ok(fn)    == [ok |-> TRUE,  err |-> "ok", fn |-> fn]
-Fail(e)   == [ok |-> FALSE, err |-> e,    fn |-> << >>]
+Ok(fn)     == [ok |-> TRUE,  err |-> "ok", errs |-> {}, fn |-> fn]
+Fail(e)    == [ok |-> FALSE, err |-> e,    errs |-> {e}, fn |-> << >>]
+FailAny(S) == [ok |-> FALSE, err |-> (CHOOSE e \in S : TRUE), errs |-> S, fn |-> << >>]
+Unmodelled == [ok |-> TRUE,  err |-> "unmodelled", errs |-> {}, fn |-> << >>]
 
 \* a call that produces a function in slot s, or fails atomically (C16)
 Produce(s, f, out) ==
@@ -169,7 +178,7 @@ Produce(s, f, out) ==
        THEN edges' = [edges EXCEPT ![s] = [f |-> f, fn |-> out.fn]]
        ELSE UNCHANGED edges
     /\ err' = out.err
-    /\ UNCHANGED <<lib, doms, fors, nextFid>>
+    /\ UNCHANGED <<lib, doms, fors, nextFid, files>>
 
 -----------------------------------------------------------------------------
 (* Construction (C03) *)
@@ -208,6 +217,25 @@ SameDomain(f, g) == fors[f].d = fors[g].d
 
 BoolMT(F) == F.lab = "MT" /\ F.rng = "B"
 
+\* value class of a forest (see MddFun scalar operations)
+Cls(F) == CASE F.lab = "MT" -> F.rng
+            [] F.lab \in {"EP", "IX"} -> "P"
+            [] OTHER -> "T"
+
+SameKind(F, G) == F.lab = G.lab /\ F.rng = G.rng /\ F.rel = G.rel
+
+\* operand/result combinations the arithmetic factories build
+ArithSupported(op, FA, FB, FR) ==
+    /\ SameKind(FA, FR) /\ SameKind(FB, FR)
+    /\ Cls(FR) \in {"I", "R", "P", "T"} /\ FR.lab # "IX"
+    /\ op = "MODULO" => Cls(FR) \in {"I", "P"}
+    /\ op = "DIST_MIN" => FR.lab = "MT"
+
+CmpSupported(FA, FB, FR) ==
+    /\ FA.lab = FB.lab /\ FA.rng = FB.rng /\ FA.rel = FB.rel /\ FA.rel = FR.rel
+    /\ FA.lab \in {"MT", "EP", "ET"} /\ FA.rng \in {"I", "R"}
+    /\ FR.lab = "MT"
+
 \* set algebra (C04): operands and result in any MT boolean forests over the
 \* same domain, all sets or all relations
 SetAlgebra(op, a, b) ==
@@ -215,47 +243,181 @@ SetAlgebra(op, a, b) ==
       [] op = "INTERSECTION" -> InterFn(a, b)
       [] op = "DIFFERENCE"   -> DiffFn(a, b)
 
+FromErrs(fn) == IF ErrsOf(fn) = {} THEN Ok(fn) ELSE FailAny(ErrsOf(fn))
+
+ReachOps == {"REACH_FS_F", "REACH_FS_B", "REACH_NOFS_F", "REACH_NOFS_B", "REACH_SAT_F", "REACH_SAT_B"}
+FwdOps   == {"REACH_FS_F", "REACH_NOFS_F", "REACH_SAT_F", "POST_IMAGE", "VM_MULTIPLY"}
+
+\* kind of the set operand of an image / reachability call:
+\*   "B" boolean, "D" MT integer distance, "P" EV+ distance, "" unsupported
+ImgClass(op, FA, FB, FR) ==
+    IF ~( ~FA.rel /\ FB.rel /\ ~FR.rel /\ BoolMT(FB) /\ SameKind(FA, FR) ) THEN ""
+    ELSE IF BoolMT(FA) THEN "B"
+    ELSE IF FA.lab = "MT" /\ FA.rng = "I" /\ FR.rule = "F"
+            /\ op \notin {"REACH_FS_F", "REACH_FS_B"} THEN "D"
+    ELSE IF FA.lab = "EP" /\ op \notin {"REACH_FS_F", "REACH_FS_B"} THEN "P"
+    ELSE ""
+
 BinaryOutcome(op, r, a, b) ==
     IF ~LiveEdge(r) \/ ~LiveEdge(a) \/ ~LiveEdge(b) THEN Fail("ANY")
     ELSE
     LET fr == edges[r].f  fa == edges[a].f  fb == edges[b].f
         FR == fors[fr]    FA == fors[fa]    FB == fors[fb]
+        A  == edges[a].fn B  == edges[b].fn
     IN
     IF ~SameDomain(fa, fb) \/ ~SameDomain(fa, fr) THEN Fail("DOMAIN_MISMATCH")
     ELSE
     CASE op \in {"UNION", "INTERSECTION", "DIFFERENCE"} ->
             IF BoolMT(FA) /\ BoolMT(FB) /\ BoolMT(FR) /\ FA.rel = FB.rel /\ FA.rel = FR.rel
-            THEN Ok(SetAlgebra(op, edges[a].fn, edges[b].fn))
-            ELSE Fail("TYPE_MISMATCH")
+            THEN Ok(SetAlgebra(op, A, B))
+            ELSE IF FA.lab = "MT" /\ FB.lab = "MT" /\ FR.lab = "MT" /\ FA.rel = FB.rel /\ FA.rel = FR.rel
+                 THEN Unmodelled        \* non-boolean multi-terminal operands: not documented
+                 ELSE Fail("TYPE_MISMATCH")
       [] op = "CROSS" ->
             IF BoolMT(FA) /\ BoolMT(FB) /\ BoolMT(FR) /\ ~FA.rel /\ ~FB.rel /\ FR.rel
-            THEN Ok(CrossFn(edges[a].fn, edges[b].fn, Sizes(FA)))
+            THEN Ok(CrossFn(A, B, Sizes(FA)))
             ELSE Fail("TYPE_MISMATCH")
-      [] OTHER -> [ok |-> TRUE, err |-> "unmodelled", fn |-> << >>]
+      [] op \in ArithOps ->
+            IF ArithSupported(op, FA, FB, FR)
+            THEN FromErrs(ArithFn(op, Cls(FR), A, B))
+            ELSE IF FA.rel # FB.rel \/ FA.rel # FR.rel THEN Fail("TYPE_MISMATCH")
+            ELSE Unmodelled
+      [] op \in CmpOps ->
+            IF CmpSupported(FA, FB, FR)
+            THEN Ok(CmpFn(op, A, B, UnitOf(FR)))
+            ELSE IF FA.rel # FB.rel \/ FA.rel # FR.rel THEN Fail("TYPE_MISMATCH")
+            ELSE Unmodelled
+      [] op \in {"PRE_IMAGE", "POST_IMAGE"} ->
+            LET c == ImgClass(op, FA, FB, FR)  pairs == RelPairs(Sizes(FA)) IN
+            IF c = "B" THEN Ok(IF op = "POST_IMAGE" THEN PostImageB(A, B, pairs) ELSE PreImageB(A, B, pairs))
+            ELSE IF c = "D" THEN Ok(DistImage(op = "POST_IMAGE", A, B, pairs, FALSE))
+            ELSE IF c = "P" THEN Ok(DistImage(op = "POST_IMAGE", A, B, pairs, TRUE))
+            ELSE Unmodelled
+      [] op \in {"VM_MULTIPLY", "MV_MULTIPLY"} ->
+            \* VM: vector a, matrix b;  MV: matrix a, vector b
+            LET FV == IF op = "VM_MULTIPLY" THEN FA ELSE FB
+                FM == IF op = "VM_MULTIPLY" THEN FB ELSE FA
+                V  == IF op = "VM_MULTIPLY" THEN A ELSE B
+                M  == IF op = "VM_MULTIPLY" THEN B ELSE A
+            IN IF /\ ~FV.rel /\ FM.rel /\ ~FR.rel
+                  /\ FV.lab = "MT" /\ FM.lab = "MT" /\ FR.lab = "MT"
+                  /\ FV.rng = FR.rng /\ FM.rng = FR.rng /\ FR.rng \in {"I", "R"}
+               THEN Ok(VecMat(op = "VM_MULTIPLY", V, M, RelPairs(Sizes(FV)), FR.rng = "R"))
+               ELSE Unmodelled
+      [] op \in ReachOps ->
+            LET c == ImgClass(op, FA, FB, FR)  pairs == RelPairs(Sizes(FA))  fwd == op \in FwdOps IN
+            IF c = "B" THEN Ok(ReachB(fwd, A, B, pairs))
+            ELSE IF c = "D" THEN Ok(ReachD(fwd, A, B, pairs, FALSE))
+            ELSE IF c = "P" THEN Ok(ReachD(fwd, A, B, pairs, TRUE))
+            ELSE Unmodelled
+      [] OTHER -> Unmodelled
 
 ApplyBinary(op, r, a, b) ==
     LET out == BinaryOutcome(op, r, a, b)
     IN  /\ out.err # "unmodelled"
         /\ Produce(r, IF LiveEdge(r) THEN edges[r].f ELSE NoForest, out)
 
+\* scalar conversion of COPY between value classes
+ConvertV(FS, FD, v) ==
+    LET cs == Cls(FS)  cd == Cls(FD) IN
+    IF Bad(v) THEN OffGrid
+    ELSE IF v = Inf THEN (IF cd = "P" THEN Inf ELSE OffGrid)       \* infinity -> non-EV+: not documented
+    ELSE CASE cd = "B" -> IF v # 0 THEN 1 ELSE 0
+           [] cd \in {"I", "P"} ->
+                IF cs \in {"R", "T"} THEN (IF v % 64 = 0 THEN TruncDiv(v, 64) ELSE OffGrid) ELSE v
+           [] OTHER ->         \* real-valued destination
+                IF cs \in {"R", "T"} THEN v ELSE Guard(SafeMul(v, 64), TRUE)
+
+CopyFn(FS, FD, f) == [i \in DOMAIN f |-> ConvertV(FS, FD, f[i])]
+
 UnaryOutcome(op, r, a) ==
     IF ~LiveEdge(r) \/ ~LiveEdge(a) THEN Fail("ANY")
     ELSE
     LET fr == edges[r].f  fa == edges[a].f
         FR == fors[fr]    FA == fors[fa]
+        A  == edges[a].fn
     IN
     IF ~SameDomain(fa, fr) THEN Fail("DOMAIN_MISMATCH")
     ELSE
     CASE op = "COMPLEMENT" ->
             IF BoolMT(FA) /\ BoolMT(FR) /\ FA.rel = FR.rel
-            THEN Ok(ComplFn(edges[a].fn))
-            ELSE Fail("TYPE_MISMATCH")
-      [] OTHER -> [ok |-> TRUE, err |-> "unmodelled", fn |-> << >>]
+            THEN Ok(ComplFn(A))
+            ELSE IF FA.rel # FR.rel THEN Fail("TYPE_MISMATCH") ELSE Unmodelled
+      [] op = "COPY" ->
+            IF FA.rel # FR.rel THEN Fail("TYPE_MISMATCH")
+            ELSE Ok(CopyFn(FA, FR, A))
+      [] op = "DIST_INC" ->
+            IF FA.lab = "MT" /\ FR.lab = "MT" /\ FA.rng = "I" /\ FR.rng = "I" /\ FA.rel = FR.rel
+            THEN Ok(DistIncFn(A)) ELSE Unmodelled
+      [] op \in UserOps ->
+            IF /\ FA.rel = FR.rel
+               /\ Cls(FA) \in {"I", "R", "P"} /\ FA.lab # "IX"
+               /\ IF op \in UserBoolOps THEN BoolMT(FR) ELSE SameKind(FA, FR)
+            THEN Ok(UserFn(op, FA.rng = "R", A)) ELSE Unmodelled
+      [] op = "TOINDEX" ->
+            IF BoolMT(FA) /\ ~FA.rel /\ FR.lab = "IX" /\ ~FR.rel
+            THEN Ok(IndexSetFn(A)) ELSE Unmodelled
+      [] OTHER -> Unmodelled
 
 ApplyUnary(op, r, a) ==
     LET out == UnaryOutcome(op, r, a)
     IN  /\ out.err # "unmodelled"
         /\ Produce(r, IF LiveEdge(r) THEN edges[r].f ELSE NoForest, out)
+
+\* saturation over a partitioned relation (C20): events are boolean relation
+\* edges of one forest; the result is reachability under their union
+RECURSIVE UnionAll(_, _)
+UnionAll(evs, n) == IF n = 1 THEN edges[evs[1]].fn ELSE UnionFn(UnionAll(evs, n-1), edges[evs[n]].fn)
+
+SatOutcome(r, init, evs) ==
+    IF ~LiveEdge(r) \/ ~LiveEdge(init) \/ Len(evs) = 0 \/ \E x \in 1..Len(evs) : ~LiveEdge(evs[x]) THEN Fail("ANY")
+    ELSE
+    LET FR == fors[edges[r].f]  FI == fors[edges[init].f]  FE == fors[edges[evs[1]].f] IN
+    IF /\ \A x \in 1..Len(evs) : edges[evs[x]].f = edges[evs[1]].f
+       /\ BoolMT(FR) /\ BoolMT(FI) /\ BoolMT(FE) /\ ~FR.rel /\ ~FI.rel /\ FE.rel
+       /\ FR.d = FI.d /\ FR.d = FE.d
+    THEN Ok(ReachB(TRUE, edges[init].fn, UnionAll(evs, Len(evs)), RelPairs(Sizes(FI))))
+    ELSE Unmodelled
+
+\* reordering (C13): every edge of forest f is permuted, nothing else changes
+ReorderedEdges(f, newl2v) ==
+    [s \in DOMAIN edges |->
+        IF edges[s].f = f
+        THEN [f |-> f, fn |-> PermuteFn(edges[s].fn, fors[f].l2v, newl2v, FSizes(f), fors[f].rel)]
+        ELSE edges[s]]
+
+-----------------------------------------------------------------------------
+(* Exchange files (C14): writing records the functions in order; reading    *)
+(* returns them in the same order, into any forest of the same kind.        *)
+
+KindOf(F) == [rel |-> F.rel, rng |-> F.rng, lab |-> F.lab]
+
+WriteEdges(b, f, es) ==
+    /\ LiveForest(f) /\ \A x \in 1..Len(es) : LiveEdge(es[x]) /\ edges[es[x]].f = f
+    /\ files' = (b :> [kind |-> KindOf(fors[f]), sizes |-> FSizes(f),
+                       fns |-> [x \in 1..Len(es) |-> edges[es[x]].fn]]) @@ files
+    /\ err' = "ok"
+    /\ UNCHANGED <<lib, doms, fors, edges, nextFid>>
+
+\* reading n roots of file b into forest f, slots es
+ReadEdges(b, f, es) ==
+    /\ LiveForest(f) /\ b \in DOMAIN files
+    /\ KindOf(fors[f]) = files[b].kind /\ FSizes(f) = files[b].sizes
+    /\ Len(es) <= Len(files[b].fns)
+    /\ edges' = [s \in DOMAIN edges \cup {es[x] : x \in 1..Len(es)} |->
+                    IF \E x \in 1..Len(es) : es[x] = s
+                    THEN [f |-> f, fn |-> files[b].fns[CHOOSE x \in 1..Len(es) : es[x] = s]]
+                    ELSE edges[s]]
+    /\ err' = "ok"
+    /\ UNCHANGED <<lib, doms, fors, nextFid, files>>
+
+\* reordering (C13)
+Reorder(f, newl2v) ==
+    /\ LiveForest(f)
+    /\ edges' = ReorderedEdges(f, newl2v)
+    /\ fors' = [fors EXCEPT ![f].l2v = newl2v]
+    /\ err' = "ok"
+    /\ UNCHANGED <<lib, doms, nextFid, files>>
 
 -----------------------------------------------------------------------------
 (* Properties of the state machine *)
@@ -277,6 +439,6 @@ FidUnique ==
         (f # g /\ fors[f].alive /\ fors[g].alive) => fors[f].fid # fors[g].fid
 
 \* C16: an error step changes nothing but err
-ErrorAtomic == [][err' # "ok" => UNCHANGED <<lib, doms, fors, edges, nextFid>>]_vars
+ErrorAtomic == [][err' # "ok" => UNCHANGED <<lib, doms, fors, edges, nextFid, files>>]_vars
 
 =============================================================================
